@@ -6,15 +6,17 @@ import c06_ops as O
 from c06_ops import OPS, ITEM, Bad
 
 PROP = 'C06'
-LEAN_MODULES = ['PMV.Props.C06']
+LEAN_MODULES = ['PMV.Props.C06', 'PMV.Lemmas.DualRep2', 'PMV.Lemmas.DualProg', 'PMV.Lemmas.DualElem']
 PARALLEL = True
 MANIFEST = {
     'text': 'Kernel-checked soundness theorem against Mathlib\'s HasDerivAt (PMV/Props/C06.lean, der_sound): for every '
             'expression tree of any depth over polymath\'s scalar derivative clauses (written as in the source: '
             '_add/_sub/_mul/_div_derivs with the key-set merges, powers, trig/inverse trig, exp/log/sqrt, arctan2 off '
             'its branch cut), wherever the element and its derivative are left unmasked the attached derivative is the '
-            'derivative; the vector/matrix/quaternion formulas of the source are proved equal to the component '
-            'derivatives. The model is tied to /repo on every run: random trees (depth <= 4) over the differentiable '
+            'derivative; and ONE composition theorem (progw_rep / progw_sound, PMV/Lemmas/DualProg.lean) for every '
+            'well-typed item program over the whole catalogue (Scalars, 2-/3-vectors, quaternions, 2x2/3x3 matrices, '
+            'rotations, incl. to_matrix3, twovec, sep, inverse -M^-1 dM M^-1), whose `run` is the function the driver '
+            'executes. The model is tied to /repo on every run: random trees (depth <= 4) over the differentiable '
             'API are evaluated by the real code and by the compiled Float instance of the same definitions and compared '
             'within 1e-9; independently, every tree is checked against Richardson-extrapolated central finite '
             'differences of the real code.',
@@ -22,7 +24,8 @@ MANIFEST = {
     'technique': 'Lean 4 proof (induction over expression trees, Mathlib real analysis) + model/code correspondence + '
                  'finite-difference oracle',
     'note': 'Trusted: Lean kernel, Mathlib; libm/LAPACK/IEEE rounding are not modelled (theorems are over the reals, the '
-            'Float instance is what the tie runs). to_matrix3, twovec, sep are covered by the finite-difference oracle only.',
+            'Float instance is what the tie runs). Array structure (broadcast, sum/mean over array axes, indexing, '
+            'reshape, stack) is expanded by the harness with NumPy object arrays, not modelled in Lean.',
 }
 RULE = ('random expression trees, depth 1..4, over the catalogue in c06_ops.py (arithmetic, powers, trig/exp/log/sqrt, '
         'arctan2, dot/norm/cross/outer/unit/perp/proj/sep, element_mul/div, matrix product/inverse/transpose, axis '
@@ -30,6 +33,8 @@ RULE = ('random expression trees, depth 1..4, over the catalogue in c06_ops.py (
         'shapes (), (2,), (3,), (2,3) and broadcastable reductions; 1-2 derivative keys with denominators (), (2,), (3,); '
         'each leaf carries each key with probability 0.6 (all subsets for trees with <= 3 leaves in the subset stream); '
         'points are rejected unless every intermediate value is >= 0.1-0.3 away from the singular set of its operation; '
+        'a stream of operands that carry a denominator (2,)/(3,) THEMSELVES through the operations admitting one; '
+        'a stream of reused operands with warm caches and Python-number fast paths; '
         'a separate stream places operands on/inside the masked domain (tie only); a stream checks recursive=False / '
         'wod / without_derivs; a case is non-trivial when at least one leaf carries a key; distinct = distinct request '
         'line or tree')
@@ -193,6 +198,59 @@ class Gen:
             self.share(node, t, shape)
         return node
 
+    # ---- operands that have a denominator THEMSELVES (keys then have denominator ()): only the operations that admit one
+    def dleaf(self, t, shape, den):
+        node = self.fresh_leaf(t, shape)
+        nD = int(np.prod(den, dtype=int))
+        n = len(node['vals'])
+        node['den'] = list(den)
+        node['vals'] = [round(self.rng.uniform(-2, 2), 4) for _ in range(n * nD)]
+        node['derivs'] = {k: [round(self.rng.uniform(-2, 2), 4) for _ in range(n * nD)] for k in node['derivs']}
+        return node
+
+    def dnode(self, t, shape, depth, den):
+        """a tree whose result carries the denominator `den`"""
+        rng = self.rng
+        shape = tuple(shape)
+        if depth <= 0 or t == 'R3':
+            return self.dleaf(t if t != 'R3' else 'M3', shape, den)
+        if rng.random() < 0.15:
+            kind = rng.choice(['sum', 'mean', 'getitem', 'stack'])
+            if kind in ('sum', 'mean') and len(shape) < 2:
+                k = rng.randrange(len(shape) + 1); n = rng.choice([2, 3])
+                return {'op': kind, 't': t, 'p': {'axis': k}, 'args': [self.dnode(t, shape[:k] + (n,) + shape[k:], depth - 1, den)]}
+            if kind == 'getitem' and len(shape) < 2:
+                n = rng.choice([2, 3])
+                return {'op': 'getitem', 't': t, 'p': {'index': [rng.randrange(-n, n)]}, 'args': [self.dnode(t, (n,) + shape, depth - 1, den)]}
+            if kind == 'stack' and shape and shape[0] <= 3:
+                return {'op': 'stack', 't': t, 'p': {}, 'args': [self.dnode(t, shape[1:], depth - 1, den) for _ in range(shape[0])]}
+        V = {'V2': 2, 'V3': 3}
+        M = {'M2': 'V2', 'M3': 'V3'}
+        c = [('add', (t, t), [(0, 1)]), ('sub', (t, t), [(0, 1)]), ('neg', (t,), [(0,)]), ('nscale', (t,), [(0,)]),
+             ('ndiv', (t,), [(0,)]), ('smul', (t, 'S'), [(0,), (1,)]), ('sdiv', (t, 'S'), [(0,)])]
+        if t == 'S':
+            c += [('dot', (v, v), [(0,), (1,)]) for v in V] + [('cross', ('V2', 'V2'), [(0,), (1,)])]
+            c += [('to_scalar', (v,), [(0,)]) for v in V] + [('m_to_scalar', (m,), [(0,)]) for m in M] + [('to_parts0', ('Q',), [(0,)])]
+        if t in V:
+            m = 'M2' if t == 'V2' else 'M3'
+            c += [('emul', (t, t), [(0,), (1,)]), ('matvec', (m, t), [(0,), (1,)]), ('row_vector', (m,), [(0,)])]
+            c += [('from_scalars%d' % V[t], ('S',) * V[t], [tuple(range(V[t]))])]
+            if t == 'V3':
+                c += [('cross', ('V3', 'V3'), [(0,), (1,)]), ('to_parts1', ('Q',), [(0,)])]
+        if t in M:
+            c += [('outer', (M[t], M[t]), [(0,), (1,)]), ('matmul', (t, t), [(0,), (1,)]), ('transpose', (t,), [(0,)])]
+        if t == 'Q':
+            c += [('qmul', ('Q', 'Q'), [(0,), (1,)]), ('qconj', ('Q',), [(0,)]), ('from_parts', ('S', 'V3'), [(0, 1)])]
+        name, ats, carriers = rng.choice(c)
+        carry = rng.choice(carriers)
+        args = []
+        for i, at in enumerate(ats):
+            if i in carry:
+                args.append(self.dnode(at, shape, depth - 1, den))
+            else:
+                args.append(self.node(at, shape, depth - 1, False))
+        return {'op': name, 't': t, 'p': rparams(name, ats, rng), 'args': args}
+
     def structural(self, t, shape, depth):
         rng = self.rng
         kind = rng.choice(['sum', 'mean', 'getitem', 'getitem', 'reshape', 'swap_axes', 'stack', 'flatten', 'bcast'])
@@ -277,7 +335,9 @@ def smooth(tree, keys):
         return True, peak[0]
     except Bad:
         return False, 0.0
-    except Exception:
+    except Exception as e:
+        if 'denom' in str(e):
+            return False, 0.0   # an operation that by design does not admit the operand's denominator
         return True, 1.0        # the real code raises: keep the case, the oracle reports it
 
 
@@ -463,6 +523,17 @@ def gen_cases(rng, tier):
                     if smooth(tree, keys)[0]:
                         cases.append(mk_case(tree, keys, kind='reuse:%s:%s' % (form, f)))
                         break
+    # 2c. operands that have a denominator themselves ((2,) or (3,)); key `t` with denominator ()
+    for t in ['S', 'V2', 'V3', 'M2', 'M3', 'Q']:
+        for rep in range(40 if thorough else 12):
+            for _try in range(40):
+                keys = {'t': []}
+                g = Gen(rng, keys, 0.7, reuse=0.2)
+                shape = rng.choice([(), (), (2,), (3,)])
+                tree = g.dnode(t, shape, rng.choice([1, 2, 2, 3]), rng.choice([(2,), (3,)]))
+                if tree['op'] != 'leaf' and smooth(tree, keys)[0]:
+                    cases.append(mk_case(tree, keys, kind='den:' + tree['op']))
+                    break
     # 3. random deep trees
     for i in range(n_rand):
         keys = rng.choice(KEYSETS)
@@ -488,7 +559,7 @@ def request(case):
     if arr is None:
         return None
     dirs = [['%s.%d' % (k, j), E.denv[(k, j)]] for (k, j) in E.dirs]
-    return ['c06', 'run', ['env'] + E.env, ['um'] + E.um, ['dirs'] + dirs, ['progs'] + list(arr.reshape(-1))]
+    return ['c06', 'run', ['env'] + E.env, ['um'] + E.um, ['dirs'] + dirs, ['progs'] + list(arr.arr.reshape(-1))]
 
 
 # ------------------------------------------------------------------ observation of the real code
@@ -513,27 +584,32 @@ def expanded(m, shape):
 
 
 def observe(r, keys):
-    """[[label, elem...]...]; elem = 'm' | 'n' | [floats]"""
+    """[[label, elem...]...]; elem = 'm' | 'n' | [floats]; one elem per (array element, index into the RESULT's own
+    denominator), the key's denominator index is part of the label"""
     shape = r._shape_
     n = int(np.prod(shape, dtype=int))
     isz = int(np.prod(r._numer_, dtype=int))
-    rm = expanded(r._mask_, shape)
+    rden = tuple(r._denom_)
+    nD = int(np.prod(rden, dtype=int))
+    rm = np.repeat(expanded(r._mask_, shape), nD)
     anym = rm.copy()
     for d in r._derivs_.values():
-        anym = anym | expanded(d._mask_, shape)
-    v = np.broadcast_to(np.asarray(r._values_, dtype=float), shape + tuple(r._numer_)).reshape(n, isz)
-    out = [['val'] + ['m' if anym[e] else [float(x) for x in v[e]] for e in range(n)]]
+        anym = anym | np.repeat(expanded(d._mask_, shape), nD)
+    v = np.broadcast_to(np.asarray(r._values_, dtype=float), shape + tuple(r._numer_) + rden).reshape(n, isz, nD)
+    v = np.moveaxis(v, 2, 1).reshape(n * nD, isz)
+    out = [['val'] + ['m' if anym[e] else [float(x) for x in v[e]] for e in range(n * nD)]]
     for k in sorted(keys):
         nd = int(np.prod(keys[k], dtype=int))
         for j in range(nd):
             label = '%s.%d' % (k, j)
             if k not in r._derivs_:
-                out.append([label] + ['n'] * n)
+                out.append([label] + ['n'] * (n * nD))
                 continue
             d = r._derivs_[k]
-            dv = np.broadcast_to(np.asarray(d._values_, dtype=float), shape + tuple(d._numer_) + tuple(d._denom_)).reshape(n, isz, nd)
-            dm = expanded(d._mask_, shape) | rm
-            out.append([label] + ['m' if dm[e] else [float(x) for x in dv[e, :, j]] for e in range(n)])
+            dv = np.broadcast_to(np.asarray(d._values_, dtype=float), shape + tuple(d._numer_) + tuple(d._denom_)).reshape(n, isz, nD, nd)
+            dv = np.moveaxis(dv[..., j], 2, 1).reshape(n * nD, isz)
+            dm = np.repeat(expanded(d._mask_, shape), nD) | rm
+            out.append([label] + ['m' if dm[e] else [float(x) for x in dv[e]] for e in range(n * nD)])
     return out
 
 
@@ -620,18 +696,19 @@ def fd_check(tree, keys):
     for k in want:
         den = tuple(keys[k])
         d = r._derivs_[k]
-        if tuple(d._denom_) != den or tuple(d._numer_) != tuple(r._numer_) or tuple(d._shape_) != tuple(shape):
+        rden = tuple(r._denom_)
+        if tuple(d._denom_) != rden + den or tuple(d._numer_) != tuple(r._numer_) or tuple(d._shape_) != tuple(shape):
             return ('shape', 'derivative %s has shape %s numer %s denom %s; result shape %s numer %s, key denominator %s'
                     % (k, d._shape_, d._numer_, d._denom_, shape, r._numer_, den))
         nd = int(np.prod(den, dtype=int))
-        dv = np.asarray(d._values_, dtype=float).reshape(tuple(shape) + tuple(r._numer_) + (nd,))
+        dv = np.asarray(d._values_, dtype=float).reshape(tuple(shape) + tuple(r._numer_) + rden + (nd,))
         dm = expanded(d._mask_, shape) | rm
         for j in range(nd):
             def central(h):
                 vs, ms = [], []
                 for hh in (h, -h):
                     q = O.ev(tree, keys, 'plain', (k, j, hh))
-                    vs.append(np.broadcast_to(np.asarray(q._values_, dtype=float), tuple(shape) + tuple(r._numer_)))
+                    vs.append(np.broadcast_to(np.asarray(q._values_, dtype=float), tuple(shape) + tuple(r._numer_) + rden))
                     ms.append(expanded(q._mask_, shape))
                 return (vs[0] - vs[1]) / (2 * h), ms[0] | ms[1], float(np.max(np.abs(vs[0]))) if vs[0].size else 1.0
             got = dv[..., j]
@@ -642,7 +719,7 @@ def fd_check(tree, keys):
             err = np.abs(rich - d1)
             bad_el = dm | m0 | m1
             scale = max(1.0, fmax, float(np.max(np.abs(got))) if got.size else 1.0)
-            good = np.broadcast_to((~bad_el).reshape(tuple(shape) + (1,) * len(r._numer_)), got.shape)
+            good = np.broadcast_to((~bad_el).reshape(tuple(shape) + (1,) * (len(r._numer_) + len(rden))), got.shape)
             if not np.all(np.isfinite(got[good])):
                 return ('nonfinite', 'derivative %s[%d] has a non-finite unmasked value' % (k, j))
             suspect = (np.abs(got - rich) > 30 * err + 1e-7 * scale) & good
@@ -663,7 +740,7 @@ def fd_check(tree, keys):
                 conv &= (e[i] <= np.maximum(0.5 * e[i - 1], floor))
             est, err2 = R[-1], e[-1] + floor
             diff = np.abs(got - est)
-            good2 = np.broadcast_to((~bad2).reshape(tuple(shape) + (1,) * len(r._numer_)), got.shape)
+            good2 = np.broadcast_to((~bad2).reshape(tuple(shape) + (1,) * (len(r._numer_) + len(rden))), got.shape)
             wrong = suspect & good2 & conv & np.isfinite(est) & (diff > 100 * err2 + 1e-7 * scale)
             if np.any(wrong):
                 ix = tuple(int(i) for i in np.argwhere(wrong)[0])
